@@ -24,12 +24,12 @@ import (
 func init() {
 	SelfTests = append(SelfTests, sm4m.SelfTest, func() error { return macm.SelfTest(sm4m.NewCipher) })
 	register(&Prop{
-		ID:    "C19",
-		Level: "exploration",
-		Nodes: func(tier string) []string { return []string{"avx2", "noaes", "purego"} },
-		Cross: true,
-		Gen:   genC19,
-		Exec:  execC19,
+		ID:        "C19",
+		Level:     "exploration",
+		Nodes:     func(tier string) []string { return []string{"avx2", "noaes", "purego"} },
+		Cross:     true,
+		Gen:       genC19,
+		Exec:      execC19,
 		QuickSecs: 20, ThoroughSecs: 600, RunsPerJob: 2000,
 		Rule: "a run fixes (construction, cipher, tag size, padding, keys) and plays a history over one long-lived MAC object: mac(msg, spare capacity), and for CMAC write(chunk)/sum/sum-append/reset/abandon, size(), replace-by-fresh-object, single-bit-difference pairs in the last block; " +
 			"abstract history = (construction, cipher, size class, padding) + sequence of (op kind, message length class mod block size, buffered-state class); non-trivial = at least 2 ops; distinct = distinct abstract histories",
